@@ -72,6 +72,8 @@ void *pool_build(uint64_t seed) {
       p->b8[12].clear(); p->b16[12] = ST::null; ST::char_buffer a; a = std::move(p->b8[14]); ST::wchar_buffer b; b = std::move(p->bw[14]); }
     // the prototype streams: configured, then used (a sink that has been written to may carry state a fresh one does not)
     p->proto8 << std::left; p->proto8.precision(4); ST::writef(p->proto8, "{}|{>12}|{x}", p->strs[0], p->strs[1], 48879); p->proto8 << p->strs[2];
+    // every other pool: before the threads exist the process has already met a sink that failed once (with and without exceptions(badbit))
+    if (seed % 2 == 0) { simrt::Hash dummy; for (int k = 1; k <= 3; k++) { flaky_writef<char>(dummy, k, k & 1, "{}|{>9}|{x}", p->strs[0], 77, k); flaky_writef<wchar_t>(dummy, k, !(k & 1), "{}|{<9}", p->strs[1], k); } }
     p->protow << std::left; p->protow.precision(4); ST::writef(p->protow, "{}|{>12}|{x}", p->strs[0], p->strs[1], 48879); p->protow << p->strs[2];
     return p;
 }
